@@ -236,6 +236,11 @@ func (i *Interpreter) ProcessReturnStatement(stmt *ast.ReturnStatement) State {
 	if stmt.ReturnExpression == nil {
 		return BARE_RETURN
 	}
+	// The next state is the identifier itself. Its rendering would include the comments
+	// attached to it, e.g. return (lookup /* cache */);
+	if ident, ok := stmt.ReturnExpression.(*ast.Ident); ok {
+		return State(ident.Value)
+	}
 	return State(stmt.ReturnExpression.String())
 }
 
